@@ -3,6 +3,24 @@
 import json
 
 CLAIMED = {
+ "C01": dict(
+   cat="model_checking", tech="enum-level symbolic execution of rustc MIR + SMT for operator-expression emission (token-exact), composed with the C04 (MIR->SMT) and C05 (Kani/CBMC) helper-kernel obligations",
+   text="Solver-based, bounded, KERNEL of the property: (a) the emitter's operator-expression paths (emit_binop_expr, the unary arm of emit_expr, determine_binop_plan) "
+        "are symbolically executed from the whole-crate MIR with every operator/operand-type tag symbolic; each feasible path yields the exact Rust tokens it emits, "
+        "which are parsed with Rust's precedence table and compared with the IR tree (operand order, conversions, documented operator form, grouping at nesting depth 2); "
+        "(b) the run-time helpers the emitted code calls for / // % (all C04 obligations) and for indexing, slicing and range (all C05 harnesses) are decided as under C04/C05.",
+   note="Kernel-only: statements, control flow, calls, pattern matching, mutation, collection literals, f-strings and every other lowering/emission path are NOT "
+        "covered (they build HashMaps/iterate Vecs and are outside both engines, DESIGN section 3). One known finding: nested operator expressions lose their parentheses "
+        "(`(a + b) * c` -> `a + b * c`), recorded in known_findings.json; any other mis-grouping or operand/operator mix-up is still reported.",
+   ref="DESIGN.md section 0.5, C01"),
+ "C13": dict(
+   cat="model_checking", tech="bounded model checking of the compiled code (Kani/CBMC, symbolic identifier) + enum-level MIR symbolic execution of the emission plan",
+   text="Solver-based, bounded, KERNEL of the property: (a) for EVERY identifier-shaped name of 2..8 bytes the keyword table used for escaping (is_keyword) recognises every "
+        "Rust 2021 strict/reserved keyword that can be a raw identifier (oracle: the Rust Reference lists) and never `self`/`Self`/`_`; (b) every runtime helper the "
+        "operator emission plan can emit is referred to by an absolute `incan_stdlib::...` path on every plan path, so no user-chosen name can capture it.",
+   note="Kernel-only: the emission SITES (which identifiers are passed through the escaper: fields, methods, types, generated temporaries), the constructor/capitalisation "
+        "heuristics and name clashes with prelude items are TokenStream/HashMap code and are NOT covered; escape_keyword itself is private (no hook added).",
+   ref="DESIGN.md section 0.5, C13"),
  "C04": dict(
    cat="model_checking", tech="bounded SMT checking of rustc MIR (own MIR->SMT-LIB encoder; cvc5 + z3), Kani/CBMC for the raise paths",
    text="Solver-based, bounded: the numeric kernels, wrappers, trait impl bodies and generic front ends of incan_core/incan_stdlib are symbolically "
@@ -58,7 +76,6 @@ CLAIMED = {
 }
 
 NA = {
- "C01": "subject is lowering + emission + rustc: AstLowering/IrEmitter build HashMaps and TokenStreams; CBMC does not get through them (2 HashMap inserts > 35 min; determine_binop_plan > 25 min) - DESIGN section 3/4",
  "C02": "the oracle is rustc on generated text; a solver cannot encode rustc and the generator is unreachable as for C01",
  "C03": "every rule is a TypeChecker method over SymbolTable (HashMap scopes, dozens of inserts at construction); out of CBMC's reach by the HashMap measurement",
  "C06": "the const evaluator is a TypeChecker method and const emission returns TokenStream; the only reachable piece (runtime string wrappers = core kernels) is decided under C05",
@@ -66,7 +83,6 @@ NA = {
  "C09": "same pipeline twice; --check/--diff not writing files is file-system behaviour with no encodable unit",
  "C10": "needs two lexer runs on symbolic text; measured: one run on 3 symbolic layout characters does not finish (20+ min, 6 GB)",
  "C12": "the property is about HashMap iteration order under random SipHash keys; hashbrown + SipHash with symbolic keys is far beyond the 2-insert measurement",
- "C13": "escape_keyword's 51-entry keyword scan on symbolic bytes did not finish under CBMC (15 min, 10 GB) and every emission site builds TokenStreams (kani-compiler ICE); see DESIGN section 4",
  "C15": "add_rust_crate/generate_cargo_toml insert into and iterate HashMap/HashSet and build text with format!; comparing scanners with use-insertion needs the emitter",
  "C16": "the verdict is the exit status of a spawned cargo test on a generated project; aggregation is inlined in a function doing file discovery and printing",
  "C17": "hook selection contains tracing::warn! whose thread-local dispatcher crashes kani-compiler (ICE); the call-site rewrite is AstLowering::lower_expr (HashMap state)",
@@ -82,9 +98,9 @@ m = {
  "hooks": {"guard": "cfg(kani)", "enable": "cargo kani passes --cfg=kani to every crate; no hook is currently needed (all entry points are pub API or read from the MIR dump)",
            "baseline_off_cmd": "cd /repo && cargo test --workspace --no-fail-fast --offline", "source_commits": [], "add_only": True},
  "engines": [
-   {"name": "E1 kani", "path": "kani/", "serves_properties": [c for c in ("C05", "C07", "C11", "C14", "C19", "C04") if c in claimed],
+   {"name": "E1 kani", "path": "kani/", "serves_properties": [c for c in ("C01", "C05", "C07", "C11", "C13", "C14", "C19") if c in claimed],
     "kind_free_text": "Kani 0.68 / CBMC 6.11 proof harnesses in an external crate with path dependencies on /repo; counterexamples replayed by replay/ (same harness bodies, native, dev+release)"},
-   {"name": "E2 mirsmt", "path": "mirsmt/", "serves_properties": [c for c in ("C04", "C07") if c in claimed],
+   {"name": "E2 mirsmt", "path": "mirsmt/", "serves_properties": [c for c in ("C01", "C04", "C07", "C13") if c in claimed],
     "kind_free_text": "own symbolic executor over rustc's -Zunpretty=mir dump of the working tree, emitting SMT-LIB for cvc5 1.0 / z3 4.8.12"},
  ],
  "checks": [],
@@ -100,7 +116,7 @@ for pid in sorted(CLAIMED):
             "thorough_cmd": f"./check {pid} --tier thorough",
             "evidence_file": f"/verif/evidence/{pid}.json",
             "replay_cmd_template": f"./check {pid} --replay {{path}}",
-            "engine": "E2 mirsmt + E1 kani" if pid == "C04" else "E1 kani",
+            "engine": {"C04": "E2 mirsmt + E1 kani", "C01": "E2 mirsmt + E1 kani", "C07": "E2 mirsmt + E1 kani", "C13": "E1 kani + E2 mirsmt"}.get(pid, "E1 kani"),
             "level_claimed": {"category": c["cat"], "text": c["text"], "design_ref": c["ref"]},
             "level_note": c["note"],
             "technique": c["tech"],
